@@ -116,6 +116,13 @@ func runC14(c c14Case) *vlib.Outcome {
 	}
 	code, want := c.script()
 	limit := time.Duration(c.LimitMs) * time.Millisecond
+	if c.Family != "loop" && c.Source != "off" && c.Source != "locoff" {
+		// Scripts that are expected to finish get a generous limit: on a
+		// busy machine a few milliseconds of script can take much longer,
+		// and being stopped then is not a defect.  (The short limits are
+		// for the scripts that are expected to be stopped.)
+		limit = 5 * time.Second
+	}
 	desc := fmt.Sprintf("%s script %q as %s with timeout %v from %s", c.Family, code, c.Placement, limit, c.Source)
 	if c.Family == "loop" || c.Family == "slow" || c.Family == "value" {
 		o.NonTrivial = true
@@ -140,6 +147,10 @@ func runC14(c c14Case) *vlib.Outcome {
 		// location although the system has a default
 		w.ctrl.JavascriptTimeout = core.Duration(-1)
 		core.SystemParameters.JavascriptTimeouts = true
+		core.SystemParameters.DefaultJavascriptTimeout = limit
+	}
+	if c.Source == "off" {
+		// (a default that would stop the script if timeouts were on)
 		core.SystemParameters.DefaultJavascriptTimeout = limit
 	}
 	loc, err := w.open("L")
